@@ -83,10 +83,12 @@ where
         }
 
         // Actually write the data into the vector.
-        self.data[index] = Some(value);
+        let previous = self.data[index].replace(value);
 
-        // Increment the size so it stays accurate
-        self.size += 1;
+        // Increment the size so it stays accurate, but only if the key is new
+        if previous.is_none() {
+            self.size += 1;
+        }
     }
 
     /// Gets the value in the map for the provided `key` or [`None`] if there is
@@ -132,7 +134,9 @@ where
 
         if index < self.data.len() {
             let value = self.data[index].take();
-            self.size -= 1;
+            if value.is_some() {
+                self.size -= 1;
+            }
 
             value
         } else {
